@@ -1250,7 +1250,14 @@ class Mailbox:
         notifications.append(f"* {num_msgs} EXISTS\r\n")
         notifications.append(f"* {num_recent} RECENT\r\n")
         for c in self.clients.values():
-            await c.client.push(*notifications)
+            if c.pending_expunges():
+                # This client has not been sent its queued EXPUNGEs yet. The
+                # new message count only makes sense after those, so keep
+                # EXISTS/RECENT in order behind them.
+                #
+                c.pending_notifications.extend(notifications)
+            else:
+                await c.client.push(*notifications)
 
         self.num_msgs = num_msgs
         self.num_recent = num_recent
